@@ -317,3 +317,19 @@ package ovsdb
 //@ ensures_ok basicType == "string" || basicType == "uuid" ==> istype(nativeElem, "string")
 //@ ensures_ok basicType == "uuid" ==> (istype(result0, "UUID") && unbox(result0, "UUID").GoUUID == unbox(nativeElem, "string"))
 //@ ensures_ok basicType != "uuid" ==> result0 == nativeElem
+
+// ---- uuid.go (C12): the UUID codec ------------------------------------------------
+// Against the slice model of encoding/json (element i of the wire array is
+// jsonelem(bytes, i)): the encoder writes a 2-element array whose second element
+// is the identifier, unchanged; the decoder stores the second element, unchanged
+// (or leaves the value alone when the input does not decode). Together: decoding
+// what was encoded gives the identifier back, for uuids and named uuids alike.
+//@ func (UUID).MarshalJSON
+//@ modifies nothing
+//@ ensures jsonlen(result0) == 2 && jsonelem(result0, 1, "string") == u.GoUUID
+//@ ensures jsonelem(result0, 0, "string") == "uuid" || jsonelem(result0, 0, "string") == "named-uuid"
+//@ func (*UUID).UnmarshalJSON
+//@ requires u != nil
+//@ modifies u.GoUUID
+//@ ensures u.GoUUID == jsonelem(b, 1, "string") || u.GoUUID == old(u.GoUUID)
+//@ ensures jsonlen(b) != 2 ==> u.GoUUID == old(u.GoUUID)
